@@ -253,6 +253,21 @@ class CFG:
                 header = b.id
         if header is None:
             return None, set()
+        # a short-circuit loop condition (a && b) is evaluated in several blocks; the block carrying the loop's terminator
+        # is the LAST of them.  The real header is the first: walk up through predecessors that branch on a sub-expression
+        # of the loop condition.
+        cond = self.fn.nodes[loop_stmt_id].get("c")
+        if cond is not None:
+            inside = {j for j, _ in self.fn.walk(cond)} | {cond}
+            changed = True
+            while changed:
+                changed = False
+                for p in self.blocks[header].preds:
+                    pb = self.blocks[p]
+                    if pb.tk == "BinaryOperator" and pb.ts in inside and self.dominates_block(p, header) and p != header:
+                        header = p
+                        changed = True
+                        break
         # natural loop: nodes that can reach header via back edges and are dominated by header
         body = {header}
         stack = [p for p in self.blocks[header].preds if self.dominates_block(header, p)]
